@@ -219,9 +219,14 @@ class Worker(courier_utils.CourierClient):
       self._worker_pool = None
 
 
-async def _iterate_until_complete(aiterator, output_queue):
+async def _iterate_until_complete(aiterator, output_queue, returned_queue):
+  """Forwards the elements, returns what the generator returned at its end."""
   async for elem in aiterator:
     output_queue.put(elem)
+  returned = []
+  while not returned_queue.empty():
+    returned.append(returned_queue.get())
+  return returned
 
 
 class WorkerPool:
@@ -500,13 +505,18 @@ class WorkerPool:
             logging.info(
                 'chainable: %s', f'submitting task to worker {worker.address}'
             )
+            # What the generator returns (the state of the shard) is the result
+            # of the task: it only counts when the task counts as finished below,
+            # never for a task that is retried.
+            returned_queue = queue.SimpleQueue()
             aiter_until_complete = _iterate_until_complete(
                 worker.async_iterate(
                     task,
-                    generator_result_queue=generator_result_queue,
+                    generator_result_queue=returned_queue,
                     reservation=reservation,
                 ),
                 output_queue=output_queue,
+                returned_queue=returned_queue,
             )
             state = asyncio.run_coroutine_threadsafe(
                 aiter_until_complete, event_loop
@@ -536,10 +546,19 @@ class WorkerPool:
                 )
                 new_failed_tasks.append(task)
             else:
+              assert task.state is not None
+              for returned in task.state.result():
+                generator_result_queue.put(returned)
               finished_cnt += 1
           elif task.is_alive:
             still_running_tasks.append(task)
+          elif task.state is not None and not task.state.cancel():
+            # The task completed in the meantime (the last reply of the worker
+            # was already being processed): it is judged by its outcome.
+            still_running_tasks.append(task)
           else:
+            # Cancelled for good: whatever the coroutine still does, its result
+            # is dropped, the task is retried.
             logging.warning(
                 'chainable: %s', f'worker timeout, worker: {task.worker}'
             )
